@@ -1,6 +1,6 @@
 HOOK_COMMITS = []
 _PENDING = "check not built yet in this round (planned, see DESIGN.md section 9); not a statement that the technique cannot apply"
-NOT_APPLICABLE = {p: _PENDING for p in ["C01","C02","C03","C04","C05","C06","C07","C08","C09","C10","C11","C12","C13","C14","C15","C16","C18","C19","C20"]}
+NOT_APPLICABLE = {p: _PENDING for p in ["C01","C02","C03","C04","C05","C06","C07","C08","C09","C10","C11","C12","C13","C14","C16","C18","C19","C20"]}
 TEXT = {
  "C17": {
   "text": "Lean mirror of integer.h / dyadic_rational.h / rational.h; theorems for every modulus m>=2 and every operand state that each "
@@ -9,5 +9,15 @@ TEXT = {
   "design_ref": "5.17",
   "note": "GMP semantics modelled on Int/Rat; hand mirror tied by correspondence only; theorem list and axioms in evidence/C17.json",
   "technique": "Lean 4 proof over mirror model + differential correspondence harness",
+ },
+ "C15": {
+  "text": "Lean mirror of rational/dyadic interval add, sub, neg, mul, pow, sgn; theorems over every ordered field (instantiated at R): "
+          "for all well-formed intervals with any open/closed pattern and all members x, y the result contains x+y, x-y, x*y, -x, x^n "
+          "(tie cases, zero edges and symmetric even powers are the proof's case split), point operands give the exact point. Tied to "
+          "the C code by an exhaustive sweep over all interval pairs with end points in {-2..2} plus random intervals on every run. "
+          "Value intervals (lp_interval_*) and interval evaluation of polynomials are covered by correspondence only so far.",
+  "design_ref": "5.15",
+  "note": "hand mirror of arithmetic.c tied by correspondence; algebraic end points not replayed; exact scalar arithmetic trusted from C17",
+  "technique": "Lean 4 proof over mirror model + exhaustive/differential correspondence harness",
  },
 }
